@@ -24,6 +24,8 @@ type Variant struct {
 	Old, New string
 	Expect   string // rule that must fire
 	Contains string // optional substring of the construct
+	// Benign marks a behaviour-preserving refactoring: NO rule may report anything on it.
+	Benign bool
 	// Positive marks the variant as the positive example of a rule whose expected count is zero.
 }
 
@@ -44,6 +46,9 @@ type VariantReport struct {
 	Caught  int             `json:"caught"`
 	Missed  int             `json:"missed"`
 	Skipped int             `json:"skipped"`
+	// benign (behaviour-preserving) variants: silent is good, a false alarm fails the self-test
+	Silent      int `json:"benign_silent"`
+	FalseAlarms int `json:"benign_false_alarms"`
 	Results []VariantResult `json:"results"`
 }
 
@@ -67,6 +72,15 @@ func RunVariants(prop, repo, verif string) any {
 	}
 	defer os.RemoveAll(tmp)
 	rep := &VariantReport{Total: len(vs), Results: make([]VariantResult, len(vs))}
+	// obligations that are known findings on the current tree do not count against a benign variant
+	knownNow := map[string]bool{}
+	if kf, err := report.LoadKnown(filepath.Join(verif, "known_findings.json")); err == nil {
+		for _, e := range kf.Entries {
+			if e.Property == prop && e.State == "known" {
+				knownNow[e.Rule+" "+e.Construct] = true
+			}
+		}
+	}
 	sem := make(chan struct{}, 5)
 	var wg sync.WaitGroup
 	for i, v := range vs {
@@ -115,6 +129,23 @@ func RunVariants(prop, repo, verif string) any {
 					return
 				}
 			}
+			if v.Benign {
+				var fired []string
+				for _, o := range bad {
+					if knownNow[o.Rule+" "+o.Construct] {
+						continue
+					}
+					fired = append(fired, string(o.Status)+" "+o.Rule+" "+o.Construct)
+				}
+				if len(fired) == 0 {
+					r.Outcome = "silent"
+				} else {
+					sort.Strings(fired)
+					r.Outcome = "false-alarm"
+					r.Fired = strings.Join(fired, "; ")
+				}
+				return
+			}
 			for _, o := range bad {
 				if o.Rule == v.Expect && (v.Contains == "" || strings.Contains(o.Construct, v.Contains)) {
 					r.Outcome = "caught"
@@ -136,6 +167,10 @@ func RunVariants(prop, repo, verif string) any {
 		switch {
 		case r.Outcome == "caught":
 			rep.Caught++
+		case r.Outcome == "silent":
+			rep.Silent++
+		case r.Outcome == "false-alarm":
+			rep.FalseAlarms++
 		case r.Outcome == "missed":
 			rep.Missed++
 		default:
